@@ -21,11 +21,12 @@ RULE = "instances = attach/detach call events on all spliced paths from the hand
 
 def check(ctx):
     P = ctx.program
-    iters = (0, 1, 2) if ctx.tier == "thorough" else (0, 1)
+    iters = (0, 1)
     views = family_views(P, "Node")
     attach_detach(ctx, P, views, iters)
     link_writers(ctx, P, views)
     c07.block_keeps_server(ctx, P, views, iters)
+    busy_time_accounting(ctx, P, views)
     ctx.assume("custom server_priority_function / service disciplines return an element of their argument")
 
 
@@ -129,3 +130,88 @@ def link_writers(ctx, P, views):
         if fn.name not in owners or recv != "self":
             ctx.violation(ob, "R1.servers-owner", rules.qual(ci, fn), unparse(node), "extra-writer", "self.servers mutated outside create_starting_servers / add_new_servers / kill_server", loc(node))
     ctx.floor("self.servers mutations", k, 3)
+
+
+class _Unfold(ast.NodeTransformer):
+    """increment_time(a, b) -> a + b ; Decimal(str(x)) / Decimal(x) -> x   (for comparing accounting formulas)"""
+
+    def visit_Call(self, n):
+        self.generic_visit(n)
+        if call_name(n) == "increment_time" and len(n.args) == 2:
+            return ast.BinOp(left=n.args[0], op=ast.Add(), right=n.args[1])
+        if call_name(n) in ("Decimal", "str") and len(n.args) == 1:
+            return n.args[0]
+        return n
+
+
+def _lin(node):
+    from ..lin import linear
+    t = _Unfold().visit(ast.parse(unparse(node), mode="eval").body)
+    return linear(unparse(ast.fix_missing_locations(t)))
+
+
+def busy_time_accounting(ctx, P, views):
+    ob = ctx.ob("UTIL", "busy-time accounting: a server is busy from its customer's service start until that customer leaves (exit_date, blocked time included); total = now/horizon - start_date; utilisation = sum busy / sum total over all servers")
+    def want(cls, m, node, got, terms, why):
+        lin = _lin(got) if got is not None else None
+        ob.ok("%s.%s:%s" % (cls.name, m, unparse(node)[:40]), "%s.%s: %s" % (cls.name, m, unparse(node)[:90]))
+        if lin is None or lin[0] != terms or lin[1] != 0:
+            ctx.violation(ob, "R8.busy-time", "%s.%s" % (cls.name, m), unparse(node)[:100], "accounting-formula", why, loc(node))
+    for view in views:
+        if "PSNode" in view.mro:
+            continue
+        cls, fn = view.method("detatch_server")
+        srv, ind = [a.arg for a in fn.args.args][1:3]
+        asg = {unparse(x.targets[0]): x for x in ast.walk(fn) if isinstance(x, ast.Assign)}
+        b = asg.get(srv + ".busy_time")
+        if b is None:
+            ctx.violation(ob, "R8.busy-time", "%s.detatch_server" % cls.name, srv + ".busy_time", "accounting-missing", "detatch_server must add the time the server was attached to its customer", loc(fn))
+        else:
+            want(cls, "detatch_server", b, b.value, {srv + ".busy_time": 1, ind + ".exit_date": 1, ind + ".service_start_date": -1},
+                 "busy time must grow by exit_date - service_start_date of the departing customer (a blocked customer keeps its server until it leaves)")
+        t = asg.get(srv + ".total_time")
+        if t is not None:
+            want(cls, "detatch_server", t, t.value, {"self.now": 1, srv + ".start_date": -1}, "total time of a server is now - start_date")
+        cls, fn = view.method("kill_server")
+        srv = fn.args.args[1].arg
+        for x in ast.walk(fn):
+            if isinstance(x, ast.Assign) and unparse(x.targets[0]) == srv + ".total_time":
+                want(cls, "kill_server", x, x.value, {"self.next_event_date": 1, srv + ".start_date": -1}, "a retiring server's total time is the event date - start_date")
+            if isinstance(x, ast.Call) and call_name(x) == "append" and unparse(x.func.value) in ("self.all_servers_busy", "self.all_servers_total") and x.args:
+                f = "busy_time" if "busy" in unparse(x.func.value) else "total_time"
+                want(cls, "kill_server", x, x.args[0], {srv + "." + f: 1}, "the retiring server's %s is what must be archived" % f)
+        cls, fn = view.method("wrap_up_servers")
+        hor = fn.args.args[1].arg
+        loops = [x for x in ast.walk(fn) if isinstance(x, ast.For)]
+        sv = unparse(loops[0].target) if loops else "srvr"
+        for x in ast.walk(fn):
+            if isinstance(x, (ast.Assign, ast.AugAssign)):
+                tgt = unparse(x.targets[0] if isinstance(x, ast.Assign) else x.target)
+                val = x.value if isinstance(x, ast.Assign) else ast.BinOp(left=x.target, op=x.op, right=x.value)
+                if tgt == sv + ".total_time":
+                    want(cls, "wrap_up_servers", x, val, {hor: 1, sv + ".start_date": -1}, "at a stop a live server's total time is horizon - start_date")
+                if tgt == sv + ".busy_time":
+                    want(cls, "wrap_up_servers", x, val, {sv + ".busy_time": 1, hor: 1, sv + ".cust.service_start_date": -1}, "at a stop a busy server is credited horizon - its customer's service start")
+                    p_ = x
+                    okb = False
+                    while p_ is not fn:
+                        p_ = p_._parent
+                        if isinstance(p_, ast.If) and guards.norm(p_.test, unparse) == ("truth", sv + ".busy"):
+                            okb = True
+                    if not okb:
+                        ctx.violation(ob, "R8.busy-time", "%s.wrap_up_servers" % cls.name, unparse(x)[:80], "accounting-guard", "only a busy server has a running service to credit", loc(x))
+        cls, fn = view.method("find_server_utilisation")
+        for x in ast.walk(fn):
+            if isinstance(x, ast.Assign) and unparse(x.targets[0]) == "self.server_utilisation" and unparse(x.value) != "None":
+                ob.ok("%s.find_server_utilisation" % cls.name, unparse(x))
+                if unparse(x.value).replace(" ", "") != "sum(self.all_servers_busy)/sum(self.all_servers_total)":
+                    ctx.violation(ob, "R8.busy-time", "%s.find_server_utilisation" % cls.name, unparse(x)[:100], "utilisation-formula", "utilisation = total busy time / total server time", loc(x))
+            if isinstance(x, ast.Call) and call_name(x) == "append" and unparse(x.func.value) in ("self.all_servers_busy", "self.all_servers_total") and x.args:
+                f = "busy_time" if "busy" in unparse(x.func.value) else "total_time"
+                lp = x
+                while lp is not fn and not isinstance(lp, ast.For):
+                    lp = lp._parent
+                v = unparse(lp.target) if isinstance(lp, ast.For) else "server"
+                want(cls, "find_server_utilisation", x, x.args[0], {v + "." + f: 1}, "each live server's %s is what must be added" % f)
+                if not (isinstance(lp, ast.For) and unparse(lp.iter) == "self.servers"):
+                    ctx.violation(ob, "R8.busy-time", "%s.find_server_utilisation" % cls.name, unparse(x)[:80], "not-all-servers", "every live server must be counted", loc(x))
